@@ -52,8 +52,11 @@ class TaggedDevice:
     def opens(self):
         return len([e for e in self.world.trace if e[0] == "C"]) if self.world is not None else 0
 
+    shared_tag = None        # used when the device runs in its own thread (real TCP transport)
+    use_shared = False
+
     def __call__(self, apdu):
-        tag = getattr(self.tags, "current", None)
+        tag = self.shared_tag if self.use_shared else getattr(self.tags, "current", None)
         self.log.append((tag, bytes(apdu)))
         if self.delay:
             time.sleep(self.rng.random() * self.delay)
@@ -81,6 +84,67 @@ class TaggedDevice:
         return self.dev(apdu)
 
 
+class TcpSigner(threading.Thread):
+    """in-process stand-in for the TCPSigner / SGX enclave end of ledgerblue.commTCP: length-prefixed
+    APDUs in, length-prefixed data + status word out; can stall once for longer than the manager's
+    exchange timeout"""
+
+    def __init__(self, dev, stall_at=None, stall=0.0):
+        super().__init__(daemon=True)
+        self.dev = dev
+        self.stall_at = stall_at
+        self.stall = stall
+        self.count = 0
+        self.lsock = socket.socket(socket.AF_INET, socket.SOCK_STREAM)
+        self.lsock.bind(("127.0.0.1", 0))
+        self.lsock.listen(8)
+        self.port = self.lsock.getsockname()[1]
+        self.stop = False
+
+    def recvn(self, c, n):
+        buf = b""
+        while len(buf) < n:
+            chunk = c.recv(n - len(buf))
+            if not chunk:
+                return None
+            buf += chunk
+        return buf
+
+    def serve(self, c):
+        import struct
+        while True:
+            h = self.recvn(c, 4)
+            if h is None:
+                return
+            apdu = self.recvn(c, struct.unpack(">I", h)[0])
+            if apdu is None:
+                return
+            ans = self.dev(apdu)
+            self.count += 1
+            if self.stall_at is not None and self.count == self.stall_at:
+                time.sleep(self.stall)
+            if ans[0] == "D":
+                out = struct.pack(">I", len(ans[1])) + bytes(ans[1]) + struct.pack(">H", 0x9000)
+            elif ans[0] == "S":
+                out = struct.pack(">I", 0) + struct.pack(">H", ans[1])
+            else:
+                c.close()
+                return
+            try:
+                c.sendall(out)
+            except OSError:
+                return
+
+    def run(self):
+        self.lsock.settimeout(0.2)
+        while not self.stop:
+            try:
+                c, _ = self.lsock.accept()
+            except OSError:
+                continue
+            threading.Thread(target=self.serve, args=(c,), daemon=True).start()
+
+
 def expected_reply(dev, req):
     c = req["command"]
     if c == "getPubKey":
@@ -98,7 +162,20 @@ def one_round(rng, nclients, delay, seq, fault=False, kind="ledger"):
     world = env.World(device=dev)
     dev.world = world
     env.install_transport(world)
-    if kind == "tcp":
+    signer = None
+    if kind == "tcp-real":
+        # the genuine ledgerblue.commTCP transport against an in-process signer that stalls once for
+        # longer than the exchange timeout
+        import ledger.hsm2dongle_tcp as ht
+        import ledgerblue.commTCP as commTCP
+        from ledger.hsm2dongle_tcp import HSM2DongleTCP
+        ht.getDongle = commTCP.getDongle
+        dev.use_shared = True
+        signer = TcpSigner(dev, stall_at=4 + 3 + rng.randint(1, 4), stall=HSM2Dongle.DONGLE_TIMEOUT + 1.5)
+        signer.start()
+        env.set_platform("X86")
+        dongle = HSM2DongleTCP("127.0.0.1", signer.port, False)
+    elif kind == "tcp":
         # the TCP transport used for the simulator and (as a base class) for SGX
         from ledger.hsm2dongle_tcp import HSM2DongleTCP
         env.set_platform("X86")
@@ -117,10 +194,12 @@ def one_round(rng, nclients, delay, seq, fault=False, kind="ledger"):
             counter["n"] += 1
             my = (threading.get_ident(), counter["n"])
         dev.tags.current = my
+        dev.shared_tag = my
         try:
             return orig_handle(request)
         finally:
             dev.tags.current = None
+            dev.shared_tag = None
     proto.handle_request = tagged_handle
     srv = TCPServer("127.0.0.1", 0, proto)
     t = threading.Thread(target=srv.run, daemon=True)
@@ -188,6 +267,8 @@ def one_round(rng, nclients, delay, seq, fault=False, kind="ledger"):
     srv.server.shutdown()
     t.join(timeout=10)
     srv.server.server_close()
+    if signer is not None:
+        signer.stop = True
     return dev, reqs, replies
 
 
@@ -217,7 +298,8 @@ def run(ctx):
     for r in range(rounds):
         n = rng.randint(2, 16)
         dev, reqs, replies = one_round(rng, n, 0.002 if r % 2 else 0.0005, r, fault=(r % 3 == 2),
-                                       kind=("tcp" if r % 4 == 3 else "ledger"))
+                                       kind=("tcp-real" if r == 1 or (ctx["tier"] == "thorough" and r % 20 == 1)
+                                             else "tcp" if r % 4 == 3 else "ledger"))
         res["evaluations"] += 1
         res["distinct"] += 1
         res["distribution"]["clients"][n] = res["distribution"]["clients"].get(n, 0) + 1
